@@ -12,16 +12,19 @@ From NV Require Import C09.Model C09.Tables C09.Lemmas.
 Import ListNotations.
 Open Scope Z_scope.
 
-(* "every save completes without crashing the interpreter": in every history, from every world,
-   no save and no to_bytes step is a Crash (with the fix; see C09_unfixed_refuted) *)
+(* "every save completes without crashing the interpreter": in every history, a save / to_filename / to_bytes
+   step taken in a world whose live maps are all backed by their files is not a Crash - unless the saver's
+   array is a view of a map of the target that unmap_if_target does not recognise (finding S-C09d,
+   C09_view_of_map_refuted).  A world with an unbacked map is S-C09b's domain (C09_no_crash). *)
 Theorem C09_save_never_crashes : forall g ops w, g_fix g = true ->
-  r_all (fun w o w' x => is_write o = true -> x <> OCrash) g w ops.
+  r_all (fun w o w' x => is_write o = true -> backed g w -> risky_op g w o = false -> x <> OCrash) g w ops.
 Proof. exact save_never_crashes. Qed.
 Print Assumptions C09_save_never_crashes.
 
 (* "each file written decodes to the data and affine the image had at that save": at every
    successful save of every history the target holds exactly the value the image denoted just
-   before, with the image's affine, no other file is touched and no image object changes *)
+   before, with the image's affine, no other file is touched and no image object changes (same side
+   conditions: the world's maps are backed, the save is not the S-C09d case) *)
 Theorem C09_files_decode : forall g ops w, g_fix g = true -> r_all (decodes g) g w ops.
 Proof. exact files_decode. Qed.
 Print Assumptions C09_files_decode.
@@ -94,41 +97,36 @@ Proof.
 Qed.
 Print Assumptions C09_unrepaired_refuted.
 
-(* "no step of the history crashes".  FULL STATEMENT is false of the faithful model:
-   C09_no_crash_refuted (finding S-C09b, inherent to mmap).  Proved: from any world whose live maps
-   are backed by their files (every world without caches is), a history in which no save makes a
-   file shorter than a live cached map of it has no Crash step at all. *)
-Theorem C09_no_crash_partial : forall g, cfg_wf g -> g_fix g = true ->
-  forall ops w, backed g w -> no_hazard g w ops -> ~ In OCrash (snd (run g w ops)).
-Proof. exact no_crash_partial. Qed.
-Print Assumptions C09_no_crash_partial.
-
-(* S-C09b exactly.  [affected g w ops] is a decidable (boolean, computed) predicate on the history: at some point
-   of the run a live cached memory map loses its backing - a save has made its file shorter than the map.
-   Every history that is NOT affected has no Crash step at all ... *)
+(* "no step of the history crashes" is false of the faithful model: C09_no_crash_refuted (S-C09b, inherent to
+   mmap) and C09_view_of_map_refuted (S-C09d).  Exactly: [affected g w ops] is a decidable (boolean, computed)
+   predicate on the history - at some step an unrecognised view of a map of the target is saved (S-C09d), or a
+   live memory map (a cached get_fdata result, or the array an image was built around) loses its backing because
+   a save has made its file shorter than the map (S-C09b).  Every history that is NOT affected has no Crash
+   step at all ... *)
 Theorem C09_no_crash : forall g, g_fix g = true ->
   forall ops w, backed g w -> affected g w ops = false -> ~ In OCrash (snd (run g w ops)).
 Proof. exact no_crash_unaffected. Qed.
 Print Assumptions C09_no_crash.
 
-(* ... and the predicate is tight: at the very step that makes a history affected, one more operation - a
-   get_fdata of the image holding that map - kills the process.  (So the affected histories are exactly those
-   with a crashing one-step continuation at that point; finding S-C09b, inherent to mmap.) *)
-Theorem C09_affected_is_real : forall g w o, g_fix g = true -> backed g w -> w_dead w = false ->
+(* ... and the S-C09b part is tight: at the very step at which a live map loses its backing, one more
+   operation on the image holding it - get_fdata, or building an image around its array - kills the process *)
+Theorem C09_affected_is_real : forall g w o, g_fix g = true -> backed g w -> risky_op g w o = false -> w_dead w = false ->
   unbackedb g (fst (step g w o)) = true ->
-  exists s, snd (step g (fst (step g w o)) (Fdata s)) = OCrash.
+  exists s, snd (step g (fst (step g w o)) (Fdata s)) = OCrash
+            \/ snd (step g (fst (step g w o)) (Wrap s s WAny)) = OCrash.
 Proof. exact affected_is_real. Qed.
 Print Assumptions C09_affected_is_real.
 
-Theorem C09_initial_worlds_backed : forall g w, no_caches w -> backed g w.
-Proof. exact no_caches_backed. Qed.
+(* a world of in-memory array images without caches (every initial world) has no live map at all *)
+Theorem C09_initial_worlds_backed : forall g w, no_maps w -> backed g w.
+Proof. exact no_maps_backed. Qed.
 Print Assumptions C09_initial_worlds_backed.
 
 (* S-C09b on the platform's tables, 2048 voxels (16 KiB as float64): a DIFFERENT image object saves a
    shorter file over a.nii while the first image's cache is a map of it.  The SAME image doing so is safe
    since 29b7b6ce (its caches are dropped when it is re-pointed); it crashed before (g_unrep) *)
 Theorem C09_no_crash_refuted :
-  cfg_wf (g_one 2048 true) /\ no_caches (w_one F8)
+  no_maps (w_one F8)
   /\ affected (g_one 2048 true) (w_one F8) [Load 0 0 true; Fdata 0; Load 1 0 true; SetDtype 1; Save 1 0] = true
   /\ affected (g_one 2048 true) (w_one F8) [Load 0 0 true; Fdata 0; SetDtype 0; Save 0 0; Fdata 0] = false
   /\ snd (run (g_one 2048 true) (w_one F8) [Load 0 0 true; Fdata 0; Load 1 0 true; SetDtype 1; Save 1 0; Fdata 0])
@@ -141,10 +139,31 @@ Theorem C09_no_crash_refuted :
      snd (run (g_one 24 true) (w_one F8) [Load 0 0 true; Fdata 0; Load 1 0 true; SetDtype 1; Save 1 0; Fdata 0])
      = [ODone; OVal (Some 0%nat); ODone; ODone; OSaved 0 (Some 0%nat) F4 0 0; OVal None].
 Proof.
-  split; [apply platform_wf|]. split; [|vm_compute; repeat split].
+  split; [|vm_compute; repeat split].
   intros s im H. destruct s as [|[|s]]; vm_compute in H; try discriminate; destruct s; discriminate.
 Qed.
 Print Assumptions C09_no_crash_refuted.
+
+(* a NEW image object of the same class built around an array of a loaded image.  np.asanyarray(img.dataobj) and
+   img.get_fdata() (float64 file) are np.memmap instances: unmap_if_target copies them before the target is
+   truncated, the save onto the mapped file is safe.  np.asarray(img.dataobj) is a base-class VIEW of the map:
+   unmap_if_target does not recognise it - the save onto the mapped file dies (data beyond a page) or writes
+   zeros (finding S-C09d).  And an image whose own array is a map is at the mercy of its file (S-C09b): after a
+   save onto it with a narrower dtype, reading the image dies *)
+Theorem C09_view_of_map_refuted :
+  snd (run (g_one 2048 true) (w_one F8) [Load 0 0 true; Wrap 0 1 WAny; Save 1 0; Fdata 1])
+    = [ODone; ODone; OSaved 0 (Some 0%nat) F8 0 0; OVal (Some 0%nat)]
+  /\ snd (run (g_one 2048 true) (w_one F8) [Load 0 0 true; Wrap 0 1 WFdata; Save 1 0; Fdata 1])
+    = [ODone; ODone; OSaved 0 (Some 0%nat) F8 0 0; OVal (Some 0%nat)]
+  /\ snd (run (g_one 2048 true) (w_one F8) [Load 0 0 true; Wrap 0 1 WView; Save 1 0]) = [ODone; ODone; OCrash]
+  /\ snd (run (g_one 24 true) (w_one F8) [Load 0 0 true; Wrap 0 1 WView; Save 1 0]) = [ODone; ODone; OSaved 0 None F8 0 0]
+  /\ affected (g_one 24 true) (w_one F8) [Load 0 0 true; Wrap 0 1 WView; Save 1 0] = true
+  /\ snd (run (g_one 2048 true) (w_one F8) [Load 0 0 true; Wrap 0 1 WAny; SetDtype 1; Save 1 0; Fdata 1])
+    = [ODone; ODone; ODone; OSaved 0 (Some 0%nat) F4 0 0; OCrash]
+  /\ affected (g_one 2048 true) (w_one F8) [Load 0 0 true; Wrap 0 1 WAny; SetDtype 1; Save 1 0] = true
+  /\ affected (g_one 2048 true) (w_one F8) [Load 0 0 true; Wrap 0 1 WAny; Save 1 0; Fdata 1] = false.
+Proof. vm_compute. repeat split. Qed.
+Print Assumptions C09_view_of_map_refuted.
 
 (* the fix matters: without unmap_if_target, save(load(p), p) crashes (data beyond the first
    page) or writes garbage (data inside it) - finding S-C09a, repaired by 0c06baeb *)
@@ -182,18 +201,18 @@ Theorem C09_refusals_and_reshape :
 Proof. vm_compute. repeat split. Qed.
 Print Assumptions C09_refusals_and_reshape.
 
-(* non-vacuity: a hazard-free history with loads, cached maps, saves onto the own file, onto the
+(* non-vacuity: an unaffected history with loads, cached maps, saves onto the own file, onto the
    other file and back, over two NIfTI files *)
 Example C09_nonvacuous :
   let g := platform_cfg 2048 [mkP Nii false; mkP Nii false] [0%nat; 1%nat] true sc_tab false false in
   let w := mkW [Some (mkK (Some 0%nat) F8 0%nat 0%nat Nii); Some (mkK (Some 1%nat) F8 1%nat 0%nat Nii)] [None; None] false in
   let ops := [Load 0 0 true; Fdata 0; Save 0 0; Save 0 1; Load 1 1 true; Fdata 1; Save 1 0; Fdata 0; ToBytes 1;
               Uncache 1; SetInt 1; SaveFull 1; Save 1 1; Load 0 1 false; Fdata 0] in
-  cfg_wf g /\ backed g w /\ no_hazard g w ops
+  backed g w /\ affected g w ops = false
   /\ snd (run g w ops) = [ODone; OVal (Some 0%nat); OSaved 0 (Some 0%nat) F8 0 0; OSaved 1 (Some 0%nat) F8 0 0; ODone;
                           OVal (Some 0%nat); OSaved 0 (Some 0%nat) F8 0 0; OVal (Some 0%nat); OBytes (Some 0%nat) F8 0;
                           ODone; ODone; ORefused ENoSpace; OSaved 1 (Some 0%nat) I2 0 2; ODone; OVal (Some 0%nat)].
 Proof.
-  split; [apply platform_wf|]. split; [|vm_compute; repeat split].
-  apply no_caches_backed. intros s im H. destruct s as [|[|s]]; vm_compute in H; try discriminate; destruct s; discriminate.
+  split; [|vm_compute; repeat split].
+  apply no_maps_backed. intros s im H. destruct s as [|[|s]]; vm_compute in H; try discriminate; destruct s; discriminate.
 Qed.
